@@ -173,8 +173,10 @@ func (e *editor) one() ([]Applied, error) {
 			return nil, err
 		}
 		return []Applied{{Side: side, Op: ed.Op, Path: ed.Path, Path2: ed.Path2}}, nil
-	case roll < 60:
+	case roll < 58:
 		return e.conflictPair()
+	case roll < 62:
+		return e.resolveConflict()
 	case roll < 67:
 		return e.deleteVersusModify()
 	case roll < 79:
@@ -300,6 +302,32 @@ func (e *editor) deleteVersusModify() ([]Applied, error) {
 		return nil, nil
 	}
 	return []Applied{{Side: "both", Op: "delete-vs-modify", Path: p, Path2: delSide + " deleted " + target}}, nil
+}
+
+// resolveConflict performs the documented manual resolution of a conflict:
+// where both sides hold different tracked content at a path, delete one
+// side's version.
+func (e *editor) resolveConflict() ([]Applied, error) {
+	rng := e.rng
+	sa, sb, err := e.snaps()
+	if err != nil {
+		return nil, err
+	}
+	var ps []string
+	for _, p := range sa.paths() {
+		if p != "" && tracked(p, sa[p]) && tracked(p, sb[p]) && !contentEq(sa[p], sb[p]) {
+			ps = append(ps, p)
+		}
+	}
+	if len(ps) == 0 {
+		return nil, nil
+	}
+	p := ps[rng.Intn(len(ps))]
+	side := []string{"alpha", "beta"}[rng.Intn(2)]
+	if err := os.RemoveAll(fullPath(e.roots.of(side), p)); err != nil {
+		return nil, nil
+	}
+	return []Applied{{Side: side, Op: "resolve-by-delete", Path: p}}, nil
 }
 
 // makeProtected creates content the session does not track.
